@@ -400,7 +400,8 @@ func execC12Mut(e *Env, pp any) {
 	for i, s := range p.Envs {
 		r := buildEnv(s, i)
 		// generous on purpose (the server, like grpc-go, tolerates a missing leading slash): an upper bound
-		if strings.Contains(r.GetHeader().GetMethod(), "Unary") {
+		// ... but only envelopes addressed to the server's own name can run a handler
+		if strings.Contains(r.GetHeader().GetMethod(), "Unary") && r.GetHeader().GetDestination() == ServerID {
 			var pay []byte
 			if r.Body != nil {
 				m := new(wrapperspb.BytesValue)
@@ -487,7 +488,7 @@ func execC12Mut(e *Env, pp any) {
 			}
 		}
 		if found < 0 {
-			e.Violate(prop, "unary-handler-fabricated-request", "unary", "the unary handler ran with a %d-byte request that no envelope carried (or more often than it was sent)", len(rq))
+			e.Violate(prop, "unary-handler-fabricated-request", "unary", "the unary handler ran with a %d-byte request that no envelope addressed to the server carried (or more often than it was sent)", len(rq))
 			break
 		}
 		pool = append(pool[:found], pool[found+1:]...)
